@@ -274,6 +274,8 @@ func slice(x, lo, hi, max value) value {
 	switch x := x.(type) {
 	case string:
 		Len = len(x)
+	case bstr:
+		Len = len(x)
 	case []value:
 		Len = len(x)
 		Cap = cap(x)
@@ -301,6 +303,8 @@ func slice(x, lo, hi, max value) value {
 	switch x := x.(type) {
 	case string:
 		return x[l:h]
+	case bstr:
+		return normBstr(x[l:h])
 	case []value:
 		return x[l:h:m]
 	case *value: // *array
@@ -347,6 +351,17 @@ func lookup(instr *ssa.Lookup, x, idx value) value {
 // numeric datatypes and strings.  Both operands must have identical
 // dynamic type.
 func binop(op token.Token, t types.Type, x, y value) value {
+	if isBstr(x) || isBstr(y) {
+		switch op {
+		case token.ADD:
+			return bstrConcat(x, y)
+		case token.EQL:
+			return simplifyBool(bstrEq(x, y))
+		case token.NEQ:
+			return simplifyBool(symNot(bstrEq(x, y)))
+		}
+		panic(unsupported("operator " + op.String() + " on a byte string with symbolic bytes"))
+	}
 	if _, ok := x.(runeStr); ok || isRuneStr(y) {
 		switch op {
 		case token.ADD:
@@ -1074,6 +1089,8 @@ func callBuiltin(caller *frame, callpos token.Pos, fn *ssa.Builtin, args []value
 				return sym{sBV, 64, "(blen " + x.t + ")"}
 			}
 			panic(unsupported("len of symbolic non-string"))
+		case bstr:
+			return len(x)
 		case runeStr:
 			// length in runes: the code under test only compares it with 0 (stated bound)
 			return len(x)
@@ -1229,6 +1246,22 @@ func widen(x value) value {
 // the result.
 // Possible cases are described with the ssa.Convert operator.
 func conv(t_dst, t_src types.Type, x value) value {
+	if bs, ok := x.(bstr); ok {
+		// string -> []byte / string
+		if _, isSlice := t_dst.Underlying().(*types.Slice); isSlice {
+			return append([]value{}, bs...)
+		}
+		return bs
+	}
+	if xs, ok := x.([]value); ok && bstrHasSym(xs) {
+		if st, isSlice := t_src.Underlying().(*types.Slice); isSlice {
+			if eb, isB := st.Elem().Underlying().(*types.Basic); isB && eb.Kind() == types.Uint8 {
+				if b, isBasic := t_dst.Underlying().(*types.Basic); isBasic && b.Info()&types.IsString != 0 {
+					return bstr(append([]value{}, xs...)) // []byte with symbolic bytes -> string
+				}
+			}
+		}
+	}
 	if rs, ok := x.(runeStr); ok {
 		// string -> []rune / string
 		if _, isSlice := t_dst.Underlying().(*types.Slice); isSlice {
